@@ -11,9 +11,8 @@
      'unsupported datatype' warning, is success).
    * [render]: a tester message (tag number, VS text | VQ number) as a FIXMessage of SchemaModel: tag text is
      str(tag), a number is rendered by the printer argument.
-   * [print_q k z]: exact decimal expansion of z / 2^k: sign, integer part, '.', the k fraction digits with
-     trailing zeros removed but at least one kept - what Python's str(float) prints for a binary fraction with
-     at most 15 significant decimal digits in plain notation (tied in harness/c20.py on the exact stream). *)
+   * the exact binary-fraction printer [print_q] and [flat] are in Fix/TesterPrint.v (no generated tables there, so
+     the extracted runner does not depend on them). *)
 From Coq Require Import ZArith NArith List Bool.
 From AF Require Import Base.Sx Py.Str Fix.OrderStatus Fix.Tester.
 From AF Require Export Fix.TesterPrint.
